@@ -183,6 +183,11 @@ def rule_keys(E, R, rule="R14-keys"):
     ser = E.hirs(r"^<execution_context::ExecutionContext<U> as serde_core::ser::Serialize>::serialize$")
     de_ctx = E.hirs(r"ExecutionContextVisitor<U> as serde_core::de::Visitor>::visit_map$")
     de_entry = E.hirs(r"ListMatcherEntryVisitor as serde_core::de::Visitor>::visit_map$")
+    if not de_entry:
+        # the visitor type may have another name (or be the seed type itself): the hand-written visit_map in this module
+        # that names both keys of a list entry
+        de_entry = [h_ for h_ in E.hirs(r"^<.*execution_context::.* as serde_core::de::Visitor>::visit_map$")
+                    if {"type", "data"} <= set(str_lits(h_["body"], E))]
     if not ser or not de_ctx or not de_entry:
         return R.cannot(rule, "execution_context serde impls", "anchors not found (%d,%d,%d)" % (len(ser), len(de_ctx), len(de_entry)))
     w = set(str_lits(ser[0]["body"], E))
